@@ -23,6 +23,7 @@ IsInt(x) == x[2] = 1
 \*   <<1,-6>> = 1e-6, <<-1,-6>> = -1e-6, <<1,-7>> = 1e-7, <<-1,-7>> = -1e-7   (exactly those f64 values)
 \* so that behaviour exactly AT the tolerance can be recorded and judged. Tokens only pass through the
 \* identities x+0, x*1, x*(-1) and the tolerance comparisons; any other arithmetic on them yields Unrep.
+\* <<1,-30>> / <<-1,-30>> = +-1e30 (a finite magnitude far outside the exact domain; only compared for equality)
 IsTol(x) == x[2] \in {-6, -7} /\ x[1] \in {1, -1}
 \* arithmetic is total: an operand that is not a finite number (infinity, NaN, Err, Unrep) yields <<0,-2>> (Unrep)
 RAdd(a, b) == IF IsTol(a) /\ b = <<0, 1>> THEN a ELSE IF IsTol(b) /\ a = <<0, 1>> THEN b
